@@ -10,8 +10,13 @@ _state = {'installed': False, 'active': False, 'universe': None, 'events': [], '
 
 
 def _norm(p):
+    """Where a path handed to the operating system leads.  A path without `..` components is taken lexically (directory links the user
+    placed inside a root count as part of it); a path that still contains `..` is resolved the way the OS resolves it, physically,
+    because `link/..` is the parent of the link's TARGET, not of the link."""
     if isinstance(p, bytes):
         p = os.fsdecode(p)
+    if '..' in p.split(os.sep):
+        return os.path.realpath(os.path.join(os.getcwd(), p))
     return os.path.normpath(os.path.abspath(p))
 
 
